@@ -338,7 +338,7 @@ func vwKey(p []string) string { return strings.Join(p, "/") }
 
 // vwRandomTree builds an acyclic random tree: nodes, and the list of real directories (root = empty path first).
 func vwRandomTree(rng *rand.Rand, maxNodes, maxDepth int) ([]vwNode, [][]string) {
-	n := 3 + rng.Intn(maxNodes-2)
+	n := maxNodes/4 + rng.Intn(maxNodes-maxNodes/4+1)
 	nodes := []vwNode{}
 	dirs := [][]string{{}}
 	used := map[string]bool{}
@@ -410,7 +410,7 @@ func vwRandomTree(rng *rand.Rand, maxNodes, maxDepth int) ([]vwNode, [][]string)
 
 func vwRandomPats(rng *rand.Rand, nodes []vwNode) []vwPat {
 	pats := []vwPat{}
-	for k := rng.Intn(4); k > 0; k-- {
+	for k := rng.Intn(3); k > 0; k-- {
 		var comps []string
 		switch rng.Intn(4) {
 		case 0: // any name
@@ -457,7 +457,7 @@ func vwRandomRoots(rng *rand.Rand, dirs [][]string) []vwRoot {
 		}
 		return vwRoot{Arg: rel, At: at, Shown: shown}
 	}
-	if rng.Intn(10) < 6 || len(dirs) == 1 {
+	if rng.Intn(10) < 7 || len(dirs) == 1 {
 		return []vwRoot{mk([]string{})}
 	}
 	first := dirs[1+rng.Intn(len(dirs)-1)]
